@@ -10,7 +10,7 @@ import (
 func init() {
 	register(&PropRule{
 		ID:    "C44",
-		Roots: []string{"./dispatcher"},
+		Roots: []string{"./dispatcher", "./pkg/slayers/path/...", "./pkg/snet", "./router"},
 		Explain: "Decides for Server.processMsgNextHop: the address it returns can only be (a) the " +
 			"previous hop, and only on the SCMP echo/traceroute-request edge, (b) the destination " +
 			"extracted from the SCMP quote, (c) the SCION/UDP destination, or (d) the zero value; (b) " +
@@ -73,6 +73,9 @@ func init() {
 }
 
 func runC44(c *Ctx) {
+	// "with the path reversed": the shim reverses through scion.Raw.Reverse (C03 R2: decode,
+	// Decoded.Reverse - the mirror map, flags included -, serialize)
+	c.Borrow(runC03, map[string]string{"R2-raw-reverse": "R3-reply-path-is-the-reversal", "R1-decoded-reverse": "R3-reply-path-is-the-reversal"})
 	sT := "(*dispatcher.Server)"
 	v := c.View(sT + ".processMsgNextHop")
 	if v == nil {
